@@ -5,6 +5,7 @@ import (
 	"os"
 	"path/filepath"
 	"sort"
+	"strings"
 	"testing"
 	"time"
 
@@ -275,7 +276,7 @@ func checkC11(c c11Case) *core.Failure {
 func TestC11(t *testing.T) {
 	r := core.Start(t, "C11")
 	defer r.Finish()
-	r.Rule = "(a) exhaustive decision table on a synthetic db.Database: singletons and every issuer/subject pair over artifact state {absent, cert+key, cert+CSR, key only, cert only} x stored hash {none, equal, different} x config newer/older than artifact x expiry {valid, expired with unexpired config, expired with expired config, expired with a config that ends later than the certificate but still in the past} per entity (plus config and artifact with the same timestamp) x issuer artifact {older, equal, newer} than the subject's x all 32 strategy values (quick: a 1/8 slice chosen by index stride; thorough: all). (b) random forests of up to 5 entities in up to 4 tiers over the same state space (propagation, ordering). (c) the same states materialised as real artifact files and mtimes and planned through the filesystem database; (d) a native directory whose config is a symbolic link to a file elsewhere, target modified before/after the artifact, six flag sets. Oracle: the decision function written from the statement, three-valued (unspecified only where an artifact time is compared with an absent artifact). Non-trivial = plan in which at least one entity is regenerated and at least one is not; distinct by the full state."
+	r.Rule = "(a) exhaustive decision table on a synthetic db.Database: singletons and every issuer/subject pair over artifact state {absent, cert+key, cert+CSR, key only, cert only} x stored hash {none, equal, different} x config newer/older than artifact x expiry {valid, expired with unexpired config, expired with expired config, expired with a config that ends later than the certificate but still in the past} per entity (plus config and artifact with the same timestamp) x issuer artifact {older, equal, newer} than the subject's x all 32 strategy values (quick: a 1/8 slice chosen by index stride; thorough: all). (b) random forests of up to 5 entities in up to 4 tiers over the same state space (propagation, ordering). (c) the same states materialised as real artifact files and mtimes and planned through the filesystem database; (d) a native directory whose config is a symbolic link to a file elsewhere, target modified before/after the artifact, six flag sets. Oracle: the decision function written from the statement, three-valued (unspecified only where an artifact time is compared with an absent artifact). (d) failing runs: in chains of 3-6 tiers (optionally with side leaves) one planned entity cannot be generated (signature algorithm that does not fit the issuer key, content-less profile entry, write error on its artifact); the run must report failure and, judged by the files, nothing may have been rewritten below an issuer that was not itself rewritten. Non-trivial = plan in which at least one entity is regenerated and at least one is not; distinct by the full state."
 	r.Assumptions = []string{"when an entity has no artifact file at all, reasons that compare its artifact time (issuer newer, config newer) are unspecified"}
 	wrap := func(c c11Case) *core.Failure {
 		want := c11Oracle(c)
@@ -303,6 +304,11 @@ func TestC11(t *testing.T) {
 		r.Case(fmt.Sprintf("symlink %+v", c), "symlinked-config")
 		return checkC11Symlink(c)
 	}
+	failing := func(c c11Fail) *core.Failure {
+		r.Case(fmt.Sprintf("failing %+v", c), "failing-run", "failing-run:"+c.Kind)
+		return checkC11Failing(c)
+	}
+	core.Register(r, "failing-run", failing)
 	core.Register(r, "symlink", link)
 	core.Register(r, "table", wrap)
 	core.Register(r, "files", real)
@@ -398,6 +404,14 @@ func TestC11(t *testing.T) {
 		}
 		return c
 	}
+	core.Rapid(r, "failing-run", r.Pick(150, 6000), func(t *rapid.T) c11Fail {
+		c := c11Fail{Tiers: rapid.IntRange(3, 6).Draw(t, "tiers"), Kind: rapid.SampledFrom([]string{"sigalg", "write-error", "needs-override"}).Draw(t, "kind"),
+			Flags: rapid.SampledFrom([]int{core.FlagDefault, core.FlagDefault, core.FlagChanged, core.FlagDefault | core.FlagNewer, core.FlagMissing | core.FlagChanged | core.FlagExpired}).Draw(t, "flags")}
+		c.At = rapid.IntRange(0, c.Tiers-2).Draw(t, "at")
+		c.EditRoot = c.At > 0 && rapid.Bool().Draw(t, "edit-root")
+		c.Siblings = rapid.Bool().Draw(t, "siblings")
+		return c
+	}, failing)
 	core.Rapid(r, "table", r.Pick(20000, 3000000), genForestStates, wrap)
 	core.Rapid(r, "files", r.Pick(600, 80000), genForestStates, real)
 }
@@ -630,3 +644,85 @@ func (n *nullTB) Fail()                 { n.failed = true }
 func (n *nullTB) Failed() bool          { return n.failed }
 
 var _ = sort.Strings
+
+// c11Fail: a chain t0 -> t1 -> ... of Tiers entities (optionally with a second leaf under every issuer) exists;
+// then the entity at position At is changed so that it is planned but cannot be generated (its configuration
+// parses, generation fails), and optionally the root is edited too. Whatever such a run does before it gives up:
+// an artifact may only be rewritten if the entity has a reason of its own or its issuer's artifact was
+// rewritten in the same run - never below an issuer that was not regenerated.
+type c11Fail struct {
+	Tiers    int
+	At       int
+	Kind     string // sigalg (RSA signature algorithm under an EC issuer / own EC key) | write-error (WriteFile of its artifact fails) | needs-override (profile entry without content)
+	EditRoot bool
+	Siblings bool
+	Flags    int
+}
+
+func checkC11Failing(c c11Fail) *core.Failure {
+	var w World
+	issuer := ""
+	for i := 0; i < c.Tiers; i++ {
+		e := core.Entity{File: fmt.Sprintf("%st%d.yaml", strings.Repeat("sub/", i), i), Subject: []core.RDN{{Key: "CN", Value: fmt.Sprintf("C11 tier %d", i)}}, Issuer: issuer}
+		w.Ents = append(w.Ents, e)
+		if c.Siblings && i > 0 {
+			w.Ents = append(w.Ents, core.Entity{File: fmt.Sprintf("%sside%d.yaml", strings.Repeat("sub/", i), i), Subject: []core.RDN{{Key: "CN", Value: fmt.Sprintf("C11 side %d", i)}}, Issuer: issuer})
+		}
+		issuer = e.EffAlias()
+	}
+	d := w.Dir()
+	if res := core.Run(d, core.FlagDefault); !res.OK() || res.Generated != len(w.Ents) {
+		return core.Failf("C11/failing-run/setup", "%s", res.String())
+	}
+	victim := w.Ent(fmt.Sprintf("t%d", c.At))
+	reason := map[string]bool{victim.EffAlias(): true}
+	var fault core.Fault
+	switch c.Kind {
+	case "sigalg":
+		victim.SigAlg = "RSAwithSHA256" // every key here is the default EC key
+	case "needs-override":
+		w.Profs = append(w.Profs, core.Profile{File: "profiles/strict.yaml", Name: "strict", Extensions: []core.Extension{{Kind: core.KKU}}})
+		d.Put(w.Profs[0].File, w.Profs[0].Render())
+		victim.Profile = "strict"
+	case "write-error":
+		victim.Extensions = append(victim.Extensions, core.Extension{Kind: core.KCUSTOM, OID: "1.2.3.4", Raw: core.Bin([]byte{5, 0})})
+		vp := core.PemPath(victim.File)
+		fault = func(k int, path string, data []byte) core.FaultAction {
+			if path == vp {
+				return core.FaultAction{Write: -2, Fail: true}
+			}
+			return core.FaultAction{Write: -1}
+		}
+	}
+	d.Put(victim.File, victim.Render())
+	if c.EditRoot {
+		root := &w.Ents[0]
+		root.Extensions = append(root.Extensions, core.Extension{Kind: core.KCUSTOM, OID: "1.2.3.5", Raw: core.Bin([]byte{5, 0})})
+		d.Put(root.File, root.Render())
+		reason[root.EffAlias()] = true
+	}
+	before := d.Clone()
+	res := core.RunFault(d, c.Flags, fault)
+	if res.Panic != "" {
+		return core.Failf("C11/panic", "gopki panicked: %s", res.Panic)
+	}
+	if res.OK() {
+		return core.Failf("C11/failing-run/reported-success", "%s of %s cannot be generated (%s) but the run reports success: %s", c.Kind, victim.EffAlias(), c.Kind, res.String())
+	}
+	rewritten := map[string]bool{}
+	for _, p := range before.Diff(d) {
+		rewritten[p] = true
+	}
+	for i := range w.Ents {
+		e := &w.Ents[i]
+		if !rewritten[core.PemPath(e.File)] || reason[e.EffAlias()] {
+			continue
+		}
+		iss := w.Ent(e.Issuer)
+		if iss == nil || !rewritten[core.PemPath(iss.File)] {
+			return core.Failf("C11/failing-run/regenerated-below-stale-issuer", "%s has no reason of its own and its issuer %s was not regenerated in this run (which failed at %s: %s), yet %s was rewritten (rewritten: %v)",
+				e.EffAlias(), e.Issuer, victim.EffAlias(), res.Err, core.PemPath(e.File), sortedKeys(rewritten))
+		}
+	}
+	return nil
+}
